@@ -83,7 +83,7 @@ def round32(x, up):
 
 
 # ------------------------------------------------------------------------------------------------ tokenizer / parser
-TOK = re.compile(r"\s*(--[^\n]*\n|[A-Za-z_][A-Za-z_0-9]*(?:\.[A-Za-z_][A-Za-z_0-9]*)?|\d+(?:\.\d+)?|==|>=|<=|<>|!=|[(),;*?=<>])", re.S)
+TOK = re.compile(r"\s*(--[^\n]*\n|[A-Za-z_][A-Za-z_0-9]*(?:\.[A-Za-z_][A-Za-z_0-9]*)?|\d+(?:\.\d+)?|==|>=|<=|<>|!=|[(),;*?=<>+\-])", re.S)
 
 
 def tokenize(sql):
@@ -162,6 +162,30 @@ class Parser:
             return ('call', name.lower(), args)
         return ('col', name)
 
+    def expr(self):
+        """arithmetic over operands: sums and products with parentheses (ORDER BY expressions)"""
+        e = self.term()
+        while self.peek() in ('+', '-'):
+            op = self.t[self.i]
+            self.i += 1
+            e = ('arith', op, e, self.term())
+        return e
+
+    def term(self):
+        e = self.factor()
+        while self.peek() == '*':
+            self.i += 1
+            e = ('arith', '*', e, self.factor())
+        return e
+
+    def factor(self):
+        if self.peek() == '(':
+            self.i += 1
+            e = self.expr()
+            self.eat(')')
+            return e
+        return self.operand()
+
     def select_item(self):
         e = self.operand()
         if self.accept('AS'):
@@ -205,12 +229,26 @@ class Parser:
                 else:
                     break
         where = self.condition() if self.accept('WHERE') else []
-        return ('select', items, sources, where)
+        order, limit = [], None
+        if self.accept('ORDER', 'BY'):
+            while True:
+                e = self.expr()
+                desc = False
+                if self.accept('DESC'):
+                    desc = True
+                else:
+                    self.accept('ASC')
+                order.append((e, desc))
+                if not self.accept(','):
+                    break
+        if self.accept('LIMIT'):
+            limit = self.operand()
+        return ('select', items, sources, where, order, limit)
 
     def source(self):
         name = self.ident()
         alias = name
-        if self.peek() not in (None, ',', 'INNER', 'LEFT', 'JOIN', 'WHERE', 'ON', ')'):
+        if self.peek() not in (None, ',', 'INNER', 'LEFT', 'JOIN', 'WHERE', 'ON', ')', 'ORDER', 'LIMIT'):
             alias = self.ident()
         return (name, alias)
 
@@ -352,6 +390,11 @@ class Cursor:
             return e[1]
         if k == 'col':
             return self.resolve(env, e[1])
+        if k == 'arith':
+            a, b = self.value(e[2], env, params), self.value(e[3], env, params)
+            if a is None or b is None:
+                return None
+            return a + b if e[1] == '+' else (a - b if e[1] == '-' else a * b)
         if k == 'call':
             f, args = e[1], e[2]
             if f in ('min', 'max') and len(args) == 2:
@@ -380,8 +423,17 @@ class Cursor:
             out.append((op, a2, b2))
         return out
 
+    def bind_expr(self, e, params):
+        if e[0] == 'param':
+            return ('const', params.pop(0))
+        if e[0] == 'arith':
+            a = self.bind_expr(e[2], params)
+            return ('arith', e[1], a, self.bind_expr(e[3], params))
+        return e
+
     def run_select(self, st, params):
-        _, items, sources, where = st
+        _, items, sources, where = st[:4]
+        order, limit = (st[4], st[5]) if len(st) > 4 else ([], None)
         params = list(params)
         envs = [dict()]
         for src in sources:
@@ -406,6 +458,35 @@ class Cursor:
         if where:
             where = self.bind(where, params)
             envs = [env for env in envs if self.holds(where, env)]
+        if order:
+            # parameters are consumed in textual order: once per ORDER BY expression, not once per row
+            bound = []
+            for e, desc in order:
+                bound.append((self.bind_expr(e, params), desc))
+            import functools
+
+            def cmp(x, y):
+                for e, desc in bound:
+                    a, b = self.value(e, x, []), self.value(e, y, [])
+                    if a is None or b is None:
+                        if a is None and b is None:
+                            continue
+                        r = -1 if a is None else 1          # NULLs first
+                    elif truthy(a < b):
+                        r = -1
+                    elif truthy(b < a):
+                        r = 1
+                    else:
+                        continue
+                    return -r if desc else r
+                return 0
+            envs = sorted(envs, key=functools.cmp_to_key(cmp))
+        if limit is not None:
+            n = self.value(limit, {}, params)
+            if E.is_sym(n):
+                raise SqlShimError("symbolic LIMIT is not modelled")
+            if n is not None and n >= 0:
+                envs = envs[:int(n)]
         if params:
             raise SqlShimError(f"{len(params)} unused SQL parameters")
         agg = [it for it in items if it[0] == 'call' and (it[1] == 'count' or (it[1] in ('min', 'max') and len(it[2]) == 1))]
